@@ -49,7 +49,7 @@ const ATTR_LOCALS: &[&str] = &["x", "y", "k", "id", "space", "lang"];
 
 const TEXT_ALPHABET: &[char] = &[
     '<', '&', '>', '"', '\'', ']', ']', '>', '\t', '\n', '\n', '\r', ' ', ' ', '\u{a0}', '\u{85}', '\u{2028}', 'a', 'b', 'x', '\u{e9}',
-    '\u{4e2d}', '\u{1F600}', '-', '?', ';', '#', '=', '/',
+    '\u{4e2d}', '\u{1F600}', '-', '?', ';', '#', '=', '/', '\u{feff}',
 ];
 
 fn gen_string(r: &mut Rng, min: usize, max: usize) -> String {
@@ -182,6 +182,11 @@ pub fn gen_doc(r: &mut Rng, fragment: bool) -> SDoc {
     if fragment {
         let n = r.below(5);
         gen_kids(r, &o, 0, n, &mut budget, &scope, &mut ids, &mut top);
+        // U+FEFF is a byte order mark only in front of a document entity: at the start of a fragment it is content, and every
+        // position after it counts its three bytes
+        if r.chance(1, 6) {
+            if let Some(SNode::Text(t)) = top.first_mut() { t.insert(0, '\u{feff}'); } else { top.insert(0, SNode::Text("\u{feff}".to_string())); }
+        }
     } else {
         let misc = |r: &mut Rng, top: &mut Vec<SNode>| {
             for _ in 0..r.below(3) {
